@@ -654,4 +654,40 @@ def run(facts, tier, ctx):
     r_sym.require_floor(21, "fields with a key on both sides")
     r_tag.require_floor(6, "2 tag keys + 4 variants")
     out += [r_impl, r_def, r_abs, r_sym, r_tag]
+    # ------------------------------------------------------------ ORDER (TOML values before tables)
+    # the derived Serialize emits fields in declaration order and a TOML table cannot be followed by a plain value of its
+    # parent (toml's serializer refuses with ValueAfterTable): every value-typed field precedes every table-typed field.
+    r_ord = RuleResult("ATTR/value-before-table", "in every config struct all plain-value fields are declared (hence "
+                       "serialised) before all table-valued fields")
+
+    def is_table(fty):
+        t = re.sub(r"^std::option::Option<(.*)>$", r"\1", fty)
+        adt = facts.adts.get(re.sub(r"<.*$", "", t))
+        if adt is None:
+            return False
+        if adt["kind"] == "Struct":
+            return True
+        return any(v["fields"] for v in adt["variants"])
+    for ty in tree:
+        adt = facts.adts[ty]
+        for v in adt["variants"]:
+            seen_table = None
+            bad = None
+            for f in v["fields"]:
+                if is_table(f["ty"]):
+                    seen_table = seen_table or f["name"]
+                elif seen_table is not None and bad is None:
+                    bad = (f["name"], seen_table)
+            if len(v["fields"]) < 2:
+                continue
+            if bad:
+                r_ord.fail(Finding("ATTR/value-before-table", ty, "value-after-table:%s.%s" % (ty.split("::")[-1], bad[0]), 0,
+                                   "%s:%s" % (adt["file"], adt["line"]),
+                                   "field `%s` of %s (a plain value) is declared after the table-valued field `%s`: "
+                                   "serialising a configuration in which it is set fails (values must be emitted before "
+                                   "tables), so it cannot round-trip" % (bad[0], ty, bad[1])))
+            else:
+                r_ord.ok({"type": ty, "variant": v["name"], "fields": [f["name"] for f in v["fields"]], "verdict": "ok"})
+    r_ord.require_floor(5, "config structs with two or more fields")
+    out.append(r_ord)
     return out
